@@ -1127,7 +1127,12 @@ class Function(Ring):
         return Function.pushforward(algopy.sign, [self])
 
     def sum(self, axis=None, dtype=None, out=None):
-        return Function.pushforward(algopy.sum, [self, axis, dtype, out])
+        if out is not None:
+            raise NotImplementedError('the out argument is not supported')
+        # axis and dtype are recorded as keyword arguments so that the pullback
+        # UTPM.pb_sum(ybar, x, y, axis=..., dtype=...) receives them by name
+        return Function.pushforward(algopy.sum, [self],
+                                    Fkwargs={'axis':axis, 'dtype':dtype})
 
     def prod(self):
         return Function.pushforward(algopy.prod, [self])
